@@ -53,7 +53,11 @@ RULE_ADDED = (
               'n read - also after queueing behind another client. '
               ' '
               'Round 14: on the TCP platforms 3% of the lines are served by a device that takes'
-              ' 9..301 s over every answer. ')
+              ' 9..301 s over every answer. '
+              ' '
+              'Round 15: lines in which an object repeats a member name (top level, message / a'
+              "uth, nested); every command once, well-formed, on the shard's platform and in bo"
+              'th modes. ')
 RULE = RULE + " " + RULE_ADDED.strip()
 ASSUMPTIONS = [
     "simulated device keeps to its protocol (firmware-like chunking, well-formed answers)",
@@ -542,6 +546,13 @@ def run_shard(spec, acc):
         return False
 
     try:
+        # (0) every command once, well-formed, on this shard's platform and in both modes
+        for v1_ in (False, True):
+            for name_, req_ in sorted(c02.bases(random.Random(spec["seed"] + 29), v1_).items()):
+                acc.count("well_formed_requests_of_every_command")
+                feed("base:%s:%s" % (name_, "v1" if v1_ else plat5), v1_,
+                     json.dumps(req_).encode() + b"\n",
+                     {"kind": "req", "v1": v1_, "request": req_})
         # (1) raw
         for cls, line in raw_lines(rng, 130 if quick else 2000, maxlen):
             acc.count("raw_lines")
